@@ -461,7 +461,7 @@ class C19(Prop):
             'mode / exactly-one-mode-or-usage / -f -b matchers / malformed reported). gdb-shim: run_gdb with a recording shim first on PATH '
             'and the real gdb evaluating the python command: gdb argv ends with the forwarded words, inner sys.argv = words before the '
             'marker. run-child: the started program reports its argv. non-trivial = marker present with >= 1 valued option before and >= 1 '
-            'option look-alike after; distinct by SHA-1 of the vector.')
+            'option look-alike after; distinct by SHA-1 of the vector. gdb-inner-options: the real gdb in batch mode through main.py answers `wl help filter`, `wl filter`, `wl breakpoint`: colour follows -C / --no-color / --color / the cluster -Cg, the matchers are the ones given with -f / -b.')
     assumptions = ['option values are separate words not starting with "-" (attached values such as -fVALUE are outside the statement)',
                    'clusters are made of single-letter flags (C, p) with the marker letter last']
     stages = [Split(), GdbShim(), GdbInnerOptions(), RunChild()]
